@@ -18,6 +18,18 @@ CHECKS["C07"]=dict(engine="cycle", design="5/C07", note=_cyc_note,
 CHECKS["C08"]=dict(engine="cycle", design="5/C08", note=_cyc_note,
   text="Seeded search over single coordination cycles with every subset of shards unready / failing either GET (503, refused, response lost) / hash differing with push accepted, ineffective, rejected, refused or lost / re-read failing; the complete per-shard request log is checked: no update to a shard that is not in sync by the harness' own definition, config push first and re-read after it, in-sync shards take part, reported targets of reachable unsynced shards are not assigned again.")
 
+_node_note="Trusted: the harness replicates cmd/kvass/sidecar.go's wiring (package main cannot be imported); Prometheus and the scrape targets are stubs; testing/synctest fake clock."
+CHECKS["C10"]=dict(engine="node", design="5/C10", note=_node_note,
+  text="Model-based seeded search: a real sidecar (TargetsManager, Service, Proxy, Injector, config manager, store file) is driven through drawn operation sequences (updates via the real POST route, scrapes through the real proxy, restarts from the store directory, fake-clock advances) and its real status / runtimeinfo answers are compared with a small reference model of the bookkeeping after every operation (times compared exactly on the fake clock).")
+CHECKS["C12"]=dict(engine="node", design="5/C12", note=_node_note,
+  text="Seeded search over payload classes x read-chunk patterns x gzip x short-write patterns (and a real net/http server+client over net.Pipe) through the real proxy/scraper/tee reader: status 200, target's content type, no content-encoding, body byte-for-byte equal to the served payload.")
+CHECKS["C13"]=dict(engine="node", design="5/C13", note=_node_note,
+  text="Fault injection at the scrape target (connect error, non-200, time-out on the fake clock, body break at every/drawn offset, corrupted gzip stream, administrative stop) observed by a real http.Client talking to a real http.Server that serves the real Proxy over net.Pipe inside a synctest bubble: a failed real scrape must never be a complete 200 for the client; health/last error truthful; counter +1 per attempt; small payloads are swept over every break offset (reported as exhaustive sub-sweeps).")
+CHECKS["C14"]=dict(engine="node", design="5/C14", note=_node_note,
+  text="Model-based seeded search: payloads are built from drawn (metric, label set) samples so total and kept counts are known by construction (kept via Prometheus' own relabel.Process); after every operation of a drawn history the real /status/, /runtimeinfo/ and /samples/ answers are compared with the model (mean of last <=3 successes, last total, sums, head floor).")
+CHECKS["C19"]=dict(engine="cycle", design="5/C19", note=_cyc_note,
+  text="Differential seeded search: the same two-replica scenario (incl. listing errors, scale errors, unready replicas, different placements of the same targets) is run as [A,B], [B] and [A] with per-replica schedules; everything sent to a replica's shards and manager must be identical with and without the other replica; all cycle oracles are additionally evaluated per replica.")
+
 NOT_YET = {
 }
 
@@ -54,6 +66,7 @@ def main():
         },
         "engines": [
             {"name": "cycle", "path": "sim/cycle", "serves_properties": [k for k, v in CHECKS.items() if v["engine"] == "cycle"], "kind_free_text": "one real coordination cycle against scripted sidecars under a PRNG-driven request scheduler"},
+            {"name": "node", "path": "sim/node", "serves_properties": [k for k, v in CHECKS.items() if v["engine"] == "node"], "kind_free_text": "one real sidecar under drawn operation and fault sequences against a reference model; real net/http over net.Pipe for C13/C12"},
         ],
         "checks": checks,
         "not_applicable": na,
